@@ -749,13 +749,20 @@ Proof.
   eapply conns_rel_trans; [|eapply dispatch_command_rel; exact H].
   apply conns_rel_eq. apply lazy_expire_rest.
 Qed.
-Lemma exec_queue_rel now dbi : forall q s acc reps s',
-  exec_queue now s dbi q acc = (reps, s') -> conns_rel s s'.
+Lemma exec_queue_rel now c : forall q s dbi acc reps s',
+  exec_queue now s c dbi q acc = (reps, s') -> conns_rel s s'.
 Proof.
-  induction q as [|parts q IH]; intros s acc reps s' H; cbn [exec_queue] in H.
+  induction q as [|parts q IH]; intros s dbi acc reps s' H; cbn [exec_queue] in H.
   - inversion H; subst. apply conns_rel_refl.
-  - destruct (normal_command now s 0 dbi parts None) as [rep s1] eqn:E.
-    eapply conns_rel_trans; [eapply normal_command_rel; exact E|eapply IH; exact H].
+  - destruct (beq (queued_name parts) (bs "SELECT")).
+    + destruct (normal_command now s c dbi parts None) as [rep s1] eqn:E.
+      eapply conns_rel_trans; [eapply normal_command_rel; exact E|eapply IH; exact H].
+    + destruct (normal_command now s 0 dbi parts None) as [rep s1] eqn:E.
+      eapply conns_rel_trans; [eapply normal_command_rel; exact E|eapply IH; exact H].
+Qed.
+Lemma unwatch_all_conns : forall w s, s_conns (unwatch_all s w) = s_conns s.
+Proof.
+  unfold unwatch_all. induction w as [|kb w IH]; intros s; cbn [fold_left]; [reflexivity|]. rewrite IH. reflexivity.
 Qed.
 
 (** Server.process_frame neither adds nor removes a connection *)
@@ -773,29 +780,29 @@ Proof.
   { destruct (beq (upper (trim nm)) (bs "AUTH")); [apply conns_rel_dom; eapply h_auth_rel; exact H|].
     destruct (beq (upper (trim nm)) (bs "PING")); [eapply Same; exact H|].
     destruct (beq (upper (trim nm)) (bs "QUIT")); eapply Same; exact H. }
+  destruct (c_intx cn && negb (mem_name (upper (trim nm)) tx_not_queued)) eqn:Eq.
+  { inversion H; subst. eapply dom_same_set_conn; eauto. }
   destruct (beq (upper (trim nm)) (bs "MULTI")).
   { destruct (c_intx cn); [eapply Same; exact H|]. inversion H; subst. eapply dom_same_set_conn; eauto. }
   destruct (beq (upper (trim nm)) (bs "EXEC")).
   { unfold h_exec in H. cbv zeta in H. destruct (negb (c_intx cn)); [eapply Same; exact H|].
-    destruct (existsb _ (c_watched cn)).
+    destruct (watch_violated now s cn).
     - inversion H; subst. eapply dom_same_set_conn; eauto.
-    - revert H. destruct (exec_queue _ _ _ _ _) as [reps s2] eqn:E.
+    - revert H. destruct (exec_queue _ _ _ _ _ _) as [reps s2] eqn:E.
       intros H. inversion H; subst.
       pose proof (dom_same_set_conn s s c cn (clear_tx cn) eq_refl Hc) as D1.
-      pose proof (conns_rel_dom _ _ (exec_queue_rel _ _ _ _ _ _ _ E)) as D2.
+      pose proof (conns_rel_dom _ _ (exec_queue_rel _ _ _ _ _ _ _ _ E)) as D2.
       intros c'. etransitivity; [apply D2|apply D1]. }
   destruct (beq (upper (trim nm)) (bs "DISCARD")).
   { destruct (negb (c_intx cn)); [eapply Same; exact H|]. inversion H; subst. eapply dom_same_set_conn; eauto. }
   destruct (beq (upper (trim nm)) (bs "WATCH")).
   { destruct (len (FBulk nm :: rest) <? 2); [eapply Same; exact H|].
     destruct (c_intx cn) eqn:Ei; [eapply Same; exact H|].
-    destruct (watch_loop_partial (get_trk s (c_db cn)) rest (c_watched cn)) as [[t' w'] okb].
+    destruct (watch_loop_partial (c_db cn) (get_trk s (c_db cn)) rest (c_watched cn)) as [[t' w'] okb].
     inversion H; subst. eapply dom_same_set_conn with (s := s); eauto. }
   destruct (beq (upper (trim nm)) (bs "UNWATCH")).
-  { inversion H; subst. eapply dom_same_set_conn with (s := s); eauto. }
+  { inversion H; subst. eapply dom_same_set_conn with (s := s); [apply unwatch_all_conns|eauto]. }
   destruct (beq (upper (trim nm)) (bs "AUTH")); [apply conns_rel_dom; eapply h_auth_rel; exact H|].
-  destruct (c_intx cn && negb (mem_name (upper (trim nm)) tx_not_queued)) eqn:Eq.
-  { inversion H; subst. eapply dom_same_set_conn; eauto. }
   apply conns_rel_dom. eapply normal_command_rel; exact H.
 Qed.
 
@@ -845,6 +852,60 @@ Lemma bpop_parts_names nm rest :
   bpop_parts (FBulk nm :: rest) = beq (upper nm) (bs "BLPOP") || beq (upper nm) (bs "BRPOP").
 Proof. reflexivity. Qed.
 
+(** a name that trims to SELECT is neither a push nor a blocking pop nor EVAL: the queued
+    SELECT that handle_exec runs for the connection does not involve the blocking manager *)
+Lemma drop_while_head p a l : p a = false -> drop_while p (a :: l) = a :: l.
+Proof. intros H. cbn [drop_while]. rewrite H. reflexivity. Qed.
+Lemma rev_head_last : forall (l : bytes) a, exists x l', rev (a :: l) = x :: l' /\ x = last (a :: l) 0.
+Proof.
+  induction l as [|b l IH]; intros a; [exists a, []; split; reflexivity|].
+  destruct (IH b) as (x & l' & E & Hx). exists x, (l' ++ [a]). split.
+  - change (rev (a :: b :: l)) with (rev (b :: l) ++ [a]). rewrite E. reflexivity.
+  - rewrite Hx. reflexivity.
+Qed.
+Lemma trim_id a l : is_space a = false -> is_space (last (a :: l) 0) = false -> trim (a :: l) = a :: l.
+Proof.
+  intros H1 H2. unfold trim. rewrite (drop_while_head _ _ _ H1).
+  destruct (rev_head_last l a) as (x & l' & E & Hx). rewrite E, drop_while_head by (rewrite Hx; exact H2).
+  rewrite <- E. apply rev_involutive.
+Qed.
+Lemma upper1_space c : is_space (upper1 c) = false -> is_space c = false.
+Proof. unfold is_space, upper1. destruct ((97 <=? c) && (c <=? 122)) eqn:E; [lia|intros H; exact H]. Qed.
+Lemma last_map_upper : forall (l : bytes) a, last (map upper1 (a :: l)) 0 = upper1 (last (a :: l) 0).
+Proof.
+  induction l as [|b l IH]; intros a; [reflexivity|].
+  change (last (map upper1 (a :: b :: l)) 0) with (last (map upper1 (b :: l)) 0). rewrite IH. reflexivity.
+Qed.
+Lemma upper_nospace nm x X : upper nm = x :: X -> is_space x = false -> is_space (last (x :: X) 0) = false ->
+  upper (trim nm) = x :: X.
+Proof.
+  intros E H1 H2. destruct nm as [|a l]; [discriminate|]. rewrite trim_id; [exact E| |].
+  - apply upper1_space. unfold upper in E. cbn [map] in E. injection E as E _. rewrite E. exact H1.
+  - apply upper1_space. rewrite <- last_map_upper. unfold upper in E. rewrite E. exact H2.
+Qed.
+Lemma select_name nm X : beq (upper (trim nm)) (bs "SELECT") = true ->
+  (match X with x :: X' => is_space x = false /\ is_space (last X 0) = false | [] => False end) ->
+  beq X (bs "SELECT") = false -> beq (upper nm) X = false.
+Proof.
+  intros H HX Hne. destruct (beq (upper nm) X) eqn:E; [|reflexivity]. apply beq_eq in E.
+  destruct X as [|x X']; [contradiction|]. destruct HX as [H1 H2].
+  rewrite (upper_nospace nm x X' E H1 H2) in H. congruence.
+Qed.
+Lemma bnormal_select now s b c dbi parts o oms :
+  beq (queued_name parts) (bs "SELECT") = true ->
+  bnormal now s b c dbi parts o oms = (let (r, s') := normal_command now s c dbi parts o in (r, s', b)).
+Proof.
+  intros H. destruct parts as [|first rest]; [discriminate|]. destruct first; try discriminate.
+  cbn [queued_name] in H. unfold bnormal.
+  rewrite (select_name b0 (bs "BLPOP") H) by (vm_compute; auto).
+  rewrite (select_name b0 (bs "BRPOP") H) by (vm_compute; auto).
+  rewrite (select_name b0 (bs "EVAL") H) by (vm_compute; auto).
+  destruct (normal_command now s c dbi (FBulk b0 :: rest) o) as [r s1]. cbv zeta.
+  unfold notify_after_push, is_push_name.
+  rewrite (select_name b0 (bs "LPUSH") H) by (vm_compute; auto).
+  rewrite (select_name b0 (bs "RPUSH") H) by (vm_compute; auto). reflexivity.
+Qed.
+
 (** process_normal_command with the blocking manager: a blocking pop on a real connection needs
     one that exists and is not blocked (with the id 0 of EXEC it never blocks); anything else only
     notifies *)
@@ -886,19 +947,25 @@ Proof.
 Qed.
 
 (** the queue of an EXEC: nobody blocks, whatever is queued *)
-Lemma bexec_queue_inv now dbi : forall q s b acc reps s' b',
+Lemma bexec_queue_inv now c : forall q s b dbi acc reps s' b',
   agree b ->
-  bexec_queue now s b dbi q acc = (reps, s', b') ->
+  bexec_queue now s b c dbi q acc = (reps, s', b') ->
   agree b' /\ conns_rel s s' /\ b_crashed b' = b_crashed b /\ b_out b' = b_out b /\ b_blk b' = b_blk b.
 Proof.
-  induction q as [|parts q IH]; intros s b acc reps s' b' HA H; cbn [bexec_queue] in H.
+  induction q as [|parts q IH]; intros s b dbi acc reps s' b' HA H; cbn [bexec_queue] in H.
   - injection H as E1 E2 E3. subst. split; [exact HA|]. split; [apply conns_rel_refl|]. repeat split; reflexivity.
-  - destruct (bnormal now s b 0 dbi parts None None) as [[rep s1] b1] eqn:En.
+  - destruct (beq (queued_name parts) (bs "SELECT")) eqn:Esel.
+    { rewrite (bnormal_select _ _ _ _ _ _ _ _ Esel) in H.
+      destruct (normal_command now s c dbi parts None) as [rep s1] eqn:En.
+      destruct (IH _ _ _ _ _ _ _ HA H) as (K1 & K2 & K3 & K4 & K5).
+      split; [exact K1|]. split; [eapply conns_rel_trans; [eapply normal_command_rel; exact En|exact K2]|].
+      split; [exact K3|]. split; [exact K4|exact K5]. }
+    destruct (bnormal now s b 0 dbi parts None None) as [[rep s1] b1] eqn:En.
     assert (Hg : bpop_parts parts = true -> 0 <> 0 -> zlookup 0 (b_blk b) = None /\ wakes_for 0 (b_wake b) = [] /\ exists cn, zlookup 0 (s_conns s) = Some cn)
       by (intros _ Hb; congruence).
     destruct (bnormal_inv _ _ _ _ _ _ _ _ _ _ _ HA Hg En) as (G1 & G2 & G3 & G4 & G5).
     assert (G5' : b_blk b1 = b_blk b) by (destruct (bpop_parts parts); [destruct G5 as [_ G5]; rewrite (G5 eq_refl); reflexivity|exact G5]).
-    destruct (IH _ _ _ _ _ _ G1 H) as (K1 & K2 & K3 & K4 & K5).
+    destruct (IH _ _ _ _ _ _ _ G1 H) as (K1 & K2 & K3 & K4 & K5).
     split; [exact K1|]. split; [eapply conns_rel_trans; eauto|]. repeat split; congruence.
 Qed.
 
@@ -919,23 +986,23 @@ Proof.
   destruct first as [| | |nm| | | | | | | | |]; try (apply Pass; exact H).
   rewrite Hc in H.
   destruct ((match s_password s with Some _ => true | None => false end) && negb (c_auth cn)); [apply Pass; exact H|].
+  destruct (c_intx cn && negb (mem_name (upper (trim nm)) tx_not_queued)) eqn:Eq; [apply Pass; exact H|].
   destruct (beq (upper (trim nm)) (bs "MULTI")); [apply Pass; exact H|].
   destruct (beq (upper (trim nm)) (bs "EXEC")).
   { unfold bh_exec in H. cbv zeta in H.
     destruct (negb (c_intx cn)).
     { injection H as E1 E2 E3. subst. split; [exact HA|]. split; [apply dom_same_refl|].
       split; [reflexivity|]. split; [reflexivity|]. left. reflexivity. }
-    destruct (existsb _ (c_watched cn)).
+    destruct (watch_violated now s cn).
     { injection H as E1 E2 E3. subst. split; [exact HA|]. split; [eapply dom_same_set_conn; eauto|]. split; [reflexivity|]. split; [reflexivity|]. left. reflexivity. }
-    revert H. destruct (bexec_queue _ _ _ _ _ _) as [[reps s2] b2] eqn:E. intros H. injection H as E1 E2 E3. subst.
+    revert H. destruct (bexec_queue _ _ _ _ _ _ _) as [[reps s2] b2] eqn:E. intros H. injection H as E1 E2 E3. subst.
     pose proof (dom_same_set_conn s s c cn (clear_tx cn) eq_refl Hc) as D1.
-    destruct (bexec_queue_inv _ _ _ _ _ _ _ _ _ HA E) as (G1 & G2 & G3 & G4 & G5).
+    destruct (bexec_queue_inv _ _ _ _ _ _ _ _ _ _ HA E) as (G1 & G2 & G3 & G4 & G5).
     pose proof (conns_rel_dom _ _ G2) as D2.
     split; [exact G1|]. split; [intros c'; etransitivity; [apply D2|apply D1]|].
     split; [exact G3|]. split; [exact G4|]. left. exact G5. }
   destruct (beq (upper (trim nm)) (bs "DISCARD") || beq (upper (trim nm)) (bs "WATCH")
             || beq (upper (trim nm)) (bs "UNWATCH") || beq (upper (trim nm)) (bs "AUTH")); [apply Pass; exact H|].
-  destruct (c_intx cn && negb (mem_name (upper (trim nm)) tx_not_queued)) eqn:Eq; [apply Pass; exact H|].
   assert (Hg' : bpop_parts (FBulk nm :: rest) = true -> c <> 0 -> zlookup c (b_blk b) = None /\ wakes_for c (b_wake b) = [] /\ exists cn0, zlookup c (s_conns s) = Some cn0).
   { intros _ _. split; [exact Hnb|]. split; [exact Hnw|]. exists cn. exact Hc. }
   destruct (bnormal_inv _ _ _ _ _ _ _ _ _ _ _ HA Hg' H) as (G1 & G2 & G3 & G4 & G5).
@@ -1071,12 +1138,15 @@ Proof.
   eapply NW_trans; [apply notify_after_push_nw; exact HA|exact (proj1 (notify_after_push_fields _ _ _ _ _))|].
   apply notify_after_script_nw. apply agree_notify_after_push. exact HA.
 Qed.
-Lemma bexec_queue_nw now dbi : forall q s b acc reps s' b',
-  agree b -> bexec_queue now s b dbi q acc = (reps, s', b') -> NW b b'.
+Lemma bexec_queue_nw now c : forall q s b dbi acc reps s' b',
+  agree b -> bexec_queue now s b c dbi q acc = (reps, s', b') -> NW b b'.
 Proof.
-  induction q as [|parts q IH]; intros s b acc reps s' b' HA H; cbn [bexec_queue] in H.
+  induction q as [|parts q IH]; intros s b dbi acc reps s' b' HA H; cbn [bexec_queue] in H.
   - injection H as _ _ <-. apply NW_refl.
-  - destruct (bnormal now s b 0 dbi parts None None) as [[rep s1] b1] eqn:En.
+  - destruct (beq (queued_name parts) (bs "SELECT")) eqn:Esel.
+    { rewrite (bnormal_select _ _ _ _ _ _ _ _ Esel) in H.
+      destruct (normal_command now s c dbi parts None) as [rep s1]. eapply IH; eauto. }
+    destruct (bnormal now s b 0 dbi parts None None) as [[rep s1] b1] eqn:En.
     assert (Hg : bpop_parts parts = true -> 0 <> 0 -> zlookup 0 (b_blk b) = None /\ wakes_for 0 (b_wake b) = [] /\ exists cn, zlookup 0 (s_conns s) = Some cn)
       by (intros _ Hb; congruence).
     destruct (bnormal_inv _ _ _ _ _ _ _ _ _ _ _ HA Hg En) as (G1 & _ & _ & _ & G5).
@@ -1094,14 +1164,14 @@ Proof.
   destruct first as [| | |nm| | | | | | | | |]; try (apply Pass; exact H).
   destruct (zlookup c (s_conns s)) as [cn|]; [|apply Pass; exact H].
   destruct (_ && negb (c_auth cn)); [apply Pass; exact H|].
+  destruct (c_intx cn && _); [apply Pass; exact H|].
   destruct (beq (upper (trim nm)) (bs "MULTI")); [apply Pass; exact H|].
   destruct (beq (upper (trim nm)) (bs "EXEC")).
   { unfold bh_exec in H. cbv zeta in H. destruct (negb (c_intx cn)); [injection H as _ _ <-; apply NW_refl|].
-    destruct (existsb _ (c_watched cn)); [injection H as _ _ <-; apply NW_refl|].
-    revert H. destruct (bexec_queue _ _ _ _ _ _) as [[reps s2] b2] eqn:E. intros H. injection H as _ _ <-.
+    destruct (watch_violated now s cn); [injection H as _ _ <-; apply NW_refl|].
+    revert H. destruct (bexec_queue _ _ _ _ _ _ _) as [[reps s2] b2] eqn:E. intros H. injection H as _ _ <-.
     eapply bexec_queue_nw; eauto. }
   destruct (_ || _ || _ || _); [apply Pass; exact H|].
-  destruct (c_intx cn && _); [apply Pass; exact H|].
   eapply bnormal_nw; eauto.
 Qed.
 
@@ -1131,13 +1201,16 @@ Proof.
   destruct (notify_after_script_fields s1 (notify_after_push b dbi (upper b0) (FBulk b0 :: rest) r) dbi (FBulk b0 :: rest)) as (_ & _ & _ & K & _).
   congruence.
 Qed.
-Lemma bexec_queue_dead now dbi : forall q s b acc reps s' b',
-  bexec_queue now s b dbi q acc = (reps, s', b') -> b_dead b' = b_dead b.
+Lemma bexec_queue_dead now c : forall q s b dbi acc reps s' b',
+  bexec_queue now s b c dbi q acc = (reps, s', b') -> b_dead b' = b_dead b.
 Proof.
-  induction q as [|parts q IH]; intros s b acc reps s' b' H; cbn [bexec_queue] in H.
+  induction q as [|parts q IH]; intros s b dbi acc reps s' b' H; cbn [bexec_queue] in H.
   - injection H as _ _ <-. reflexivity.
-  - destruct (bnormal now s b 0 dbi parts None None) as [[rep s1] b1] eqn:En.
-    rewrite (IH _ _ _ _ _ _ H). eapply bnormal_dead; exact En.
+  - destruct (beq (queued_name parts) (bs "SELECT")).
+    + destruct (bnormal now s b c dbi parts None None) as [[rep s1] b1] eqn:En.
+      rewrite (IH _ _ _ _ _ _ _ H). eapply bnormal_dead; exact En.
+    + destruct (bnormal now s b 0 dbi parts None None) as [[rep s1] b1] eqn:En.
+      rewrite (IH _ _ _ _ _ _ _ H). eapply bnormal_dead; exact En.
 Qed.
 Lemma bprocess_frame_dead now s b c f o oms rep s' b' :
   bprocess_frame now s b c f o oms = (rep, s', b') -> b_dead b' = b_dead b.
@@ -1150,14 +1223,14 @@ Proof.
   destruct first as [| | |nm| | | | | | | | |]; try (apply Pass; exact H).
   destruct (zlookup c (s_conns s)) as [cn|]; [|apply Pass; exact H].
   destruct (_ && negb (c_auth cn)); [apply Pass; exact H|].
+  destruct (c_intx cn && _); [apply Pass; exact H|].
   destruct (beq (upper (trim nm)) (bs "MULTI")); [apply Pass; exact H|].
   destruct (beq (upper (trim nm)) (bs "EXEC")).
   { unfold bh_exec in H. cbv zeta in H. destruct (negb (c_intx cn)); [injection H as _ _ <-; reflexivity|].
-    destruct (existsb _ (c_watched cn)); [injection H as _ _ <-; reflexivity|].
-    revert H. destruct (bexec_queue _ _ _ _ _ _) as [[reps s2] b2] eqn:E. intros H. injection H as _ _ <-.
+    destruct (watch_violated now s cn); [injection H as _ _ <-; reflexivity|].
+    revert H. destruct (bexec_queue _ _ _ _ _ _ _) as [[reps s2] b2] eqn:E. intros H. injection H as _ _ <-.
     eapply bexec_queue_dead; exact E. }
   destruct (_ || _ || _ || _); [apply Pass; exact H|].
-  destruct (c_intx cn && _); [apply Pass; exact H|].
   eapply bnormal_dead; exact H.
 Qed.
 Lemma wake_client_misc now s b u :
@@ -1664,13 +1737,16 @@ Proof.
   destruct (notify_after_script_fields s1 (notify_after_push b dbi (upper b0) (FBulk b0 :: rest) r) dbi (FBulk b0 :: rest)) as (_ & _ & K & _).
   congruence.
 Qed.
-Lemma bexec_queue_crashed now dbi : forall q s b acc reps s' b',
-  bexec_queue now s b dbi q acc = (reps, s', b') -> b_crashed b' = b_crashed b.
+Lemma bexec_queue_crashed now c : forall q s b dbi acc reps s' b',
+  bexec_queue now s b c dbi q acc = (reps, s', b') -> b_crashed b' = b_crashed b.
 Proof.
-  induction q as [|parts q IH]; intros s b acc reps s' b' H; cbn [bexec_queue] in H.
+  induction q as [|parts q IH]; intros s b dbi acc reps s' b' H; cbn [bexec_queue] in H.
   - injection H as _ _ <-. reflexivity.
-  - destruct (bnormal now s b 0 dbi parts None None) as [[rep s1] b1] eqn:En.
-    rewrite (IH _ _ _ _ _ _ H). eapply bnormal_crashed; exact En.
+  - destruct (beq (queued_name parts) (bs "SELECT")).
+    + destruct (bnormal now s b c dbi parts None None) as [[rep s1] b1] eqn:En.
+      rewrite (IH _ _ _ _ _ _ _ H). eapply bnormal_crashed; exact En.
+    + destruct (bnormal now s b 0 dbi parts None None) as [[rep s1] b1] eqn:En.
+      rewrite (IH _ _ _ _ _ _ _ H). eapply bnormal_crashed; exact En.
 Qed.
 Lemma bprocess_frame_crashed now s b c f o oms rep s' b' :
   bprocess_frame now s b c f o oms = (rep, s', b') -> b_crashed b' = b_crashed b.
@@ -1683,14 +1759,14 @@ Proof.
   destruct first as [| | |nm| | | | | | | | |]; try (apply Pass; exact H).
   destruct (zlookup c (s_conns s)) as [cn|]; [|apply Pass; exact H].
   destruct (_ && negb (c_auth cn)); [apply Pass; exact H|].
+  destruct (c_intx cn && _); [apply Pass; exact H|].
   destruct (beq (upper (trim nm)) (bs "MULTI")); [apply Pass; exact H|].
   destruct (beq (upper (trim nm)) (bs "EXEC")).
   { unfold bh_exec in H. cbv zeta in H. destruct (negb (c_intx cn)); [injection H as _ _ <-; reflexivity|].
-    destruct (existsb _ (c_watched cn)); [injection H as _ _ <-; reflexivity|].
-    revert H. destruct (bexec_queue _ _ _ _ _ _) as [[reps s2] b2] eqn:E. intros H. injection H as _ _ <-.
+    destruct (watch_violated now s cn); [injection H as _ _ <-; reflexivity|].
+    revert H. destruct (bexec_queue _ _ _ _ _ _ _) as [[reps s2] b2] eqn:E. intros H. injection H as _ _ <-.
     eapply bexec_queue_crashed; exact E. }
   destruct (_ || _ || _ || _); [apply Pass; exact H|].
-  destruct (c_intx cn && _); [apply Pass; exact H|].
   eapply bnormal_crashed; exact H.
 Qed.
 Lemma frame_step_crashed now s b c f oms : b_crashed (snd (frame_step now s b c f oms)) = b_crashed b.
